@@ -443,7 +443,7 @@ func runC05(cfg *vh.Config) error {
 	var fileCases []fileCaseRec
 	fileSeen := vh.Distinct{}
 	fileToks := map[string]int{}
-	maxFileToks := map[string]int{"repo-proto": cfg.Scale(16000, 400000), "compiled": cfg.Scale(30000, 600000)}
+	maxFileToks := map[string]int{"repo-proto": cfg.Scale(16000, 400000), "compiled": cfg.Scale(18000, 600000)}
 	addFile := func(stream string, fd protoreflect.FileDescriptor, out rtOut, where string, input any) {
 		if out.Fd2 == nil || out.Txt1 == "" {
 			return
